@@ -57,16 +57,18 @@ func (b *worldBuilder) conflicts(r RR) bool {
 		if x.Type == r.Type {
 			same++
 		}
-		if b.o.Wide {
-			continue
-		}
 		if !visibleTogether(x.Loc, r.Loc) {
 			continue
 		}
-		if (x.Type == 5) != (r.Type == 5) || (x.Type == 5 && r.Type == 5) {
+		// two SOAs visible to one client: which one is served depends on value
+		// order under a key, which no property fixes - never generated
+		if x.Type == 6 && r.Type == 6 {
 			return true
 		}
-		if x.Type == 6 && r.Type == 6 {
+		if b.o.Wide {
+			continue
+		}
+		if (x.Type == 5) != (r.Type == 5) || (x.Type == 5 && r.Type == 5) {
 			return true
 		}
 	}
